@@ -6,6 +6,7 @@ import DesyncModel.Tables.TrySync
 import DesyncModel.FactTrySync
 import DesyncModel.Lemmas
 import DesyncModel.Inv.OwnedReach
+import DesyncModel.FactHandBack
 
 namespace Desync.C09
 open Desync Gen
@@ -68,5 +69,9 @@ has returned, whatever it returned, has not left the queue marked as running (de
 theorem running_queue_is_being_run {s : State} (hr : Reachable s) {q : Nat} {v : JobQ} (hv : s.qs[q]? = some v) (hheld : v.state.held = true) :
     ∃ a, (s.pcAt a).holds q = true :=
   running_queue_has_a_runner hr hv hheld
+
+/-- the runners' hand-backs are unconditional in the source, as the model's `siIdle` / `sdIdle` / `sbStealIdle` / `dqIdle` steps are
+(regenerated fact): a queue is never left in a "somebody is running it" state because its runner found it changed -/
+theorem runners_hand_back_unconditionally : stateConditionalHandBacks = [] := hand_backs_are_unconditional
 
 end Desync.C09
